@@ -754,6 +754,42 @@ func main() {
 					}})
 				}
 			}
+			// a compressor that does its job for the first message and, after the Writer's Reset,
+			// stops emitting anything on Flush: the second message either fails or is a real DEFLATE
+			// stream of its payload - what the first message left in the writer plays no part
+			for _, p := range payloads(false) {
+				for _, firstEnding := range []string{"Flush", "Close", "Flush+Close"} {
+					p, firstEnding := p, firstEnding
+					t.Do(func() string { return fmt.Sprintf("compressor turns bad after Reset: first message ended by %s, second payload=%s", firstEnding, p.name) }, func() *explore.Fail {
+						d1 := env.NewDst()
+						w := wsflate.NewWriter(d1, func(cw io.Writer) wsflate.Compressor {
+							f, _ := flate.NewWriter(cw, 6)
+							return &lateNoFlush{f: f}
+						})
+						w.Write([]byte("hello"))
+						for _, e := range strings.Split(firstEnding, "+") {
+							if e == "Flush" {
+								w.Flush()
+							} else {
+								w.Close()
+							}
+						}
+						d2 := env.NewDst()
+						w.Reset(d2)
+						w.Write(p.data)
+						if err := w.Flush(); err != nil {
+							t.Outcome("bad-compressor-reported")
+							return nil
+						}
+						out, _, ierr := refmodel.Inflate(append(append([]byte{}, d2.Bytes()...), tail...))
+						if ierr != nil || !bytes.Equal(out, p.data) {
+							return explore.Failf("bad-compressor-not-reported-after-Reset", "Flush returned nil; the destination got %x, which with the tail inflates to %d bytes (err=%v), payload had %d", d2.Bytes(), len(out), ierr, len(p.data))
+						}
+						t.Outcome("bad-compressor-output-happens-to-be-valid")
+						return nil
+					})
+				}
+			}
 			for _, b := range bads {
 				for _, p := range payloads(false) {
 					for _, ending := range []string{"Flush", "Close", "Flush+Close"} {
@@ -905,3 +941,20 @@ type noFlush struct{ f *flate.Writer }
 
 func (n *noFlush) Write(b []byte) (int, error) { return n.f.Write(b) }
 func (n *noFlush) Flush() error                { return nil }
+
+// lateNoFlush compresses properly until it is Reset for the first time; from then on Flush
+// emits nothing (a compressor that starts batching its flushes).
+type lateNoFlush struct {
+	f      *flate.Writer
+	resets int
+}
+
+func (l *lateNoFlush) Write(b []byte) (int, error) { return l.f.Write(b) }
+func (l *lateNoFlush) Close() error                { return l.f.Close() }
+func (l *lateNoFlush) Reset(w io.Writer)           { l.resets++; l.f.Reset(w) }
+func (l *lateNoFlush) Flush() error {
+	if l.resets > 0 {
+		return nil
+	}
+	return l.f.Flush()
+}
